@@ -298,7 +298,51 @@ func runC19(c *core.Ctx) {
 				}
 			}
 		}
-		mk := func() dyn.Buf {
+		// in half of the configurations every kind of operation has already been
+		// applied to the shared buffer ITSELF, by one goroutine, before the
+		// concurrent phase starts (the other half starts on an untouched buffer)
+		warm := ci%8 == 1 || ci%8 == 2 || ci%8 == 7 || ci%16 == 8
+		warmUp := func(b dyn.Buf) dyn.Buf {
+			if !warm {
+				return b
+			}
+			n := b.Length()
+			lens := make([]int, ch)
+			for i := range lens {
+				lens[i] = n
+			}
+			ss := t.MakeSS(lens)
+			for ci2 := 0; ci2 < ch; ci2++ {
+				for i := 0; i < n; i++ {
+					ss.At(ci2).Set(i, t.FromInt(int64(1+(i+ci2)%50)))
+				}
+			}
+			e.pair.WriteStriped(ss, b)
+			e.pair.ReadStriped(b, ss)
+			fl := t.MakeSl(b.Len())
+			e.pair.Read(b, fl)
+			e.pair.Write(fl, b)
+			if b.Len() > 0 {
+				b.SetSample(0, b.Sample(b.Len()-1))
+				cv := b.Channel(ch - 1)
+				cv.SetSample(0, cv.Sample(n-1))
+			}
+			if len(e.convsD) > 0 {
+				wc := e.convsD[ci%len(e.convsD)]
+				src := wc.S.Alloc(signal.Allocator{Channels: ch, Length: n, Capacity: n})
+				for i := 0; i < src.Len(); i += 3 {
+					src.SetSample(i, wc.S.FromInt(int64(1+i%40)))
+				}
+				wc.Call(src, b)
+			}
+			if len(e.convsS) > 0 {
+				rc := e.convsS[ci%len(e.convsS)]
+				rc.Call(b, rc.D.Alloc(signal.Allocator{Channels: ch, Length: n, Capacity: n}))
+			}
+			_ = b.Slice(0, n).Slice(0, n/2).Length()
+			return b
+		}
+		mk0 := func() dyn.Buf {
 			if asGrown {
 				b := t.Alloc(signal.Allocator{Channels: ch, Length: 1, Capacity: 1})
 				b.Append(t.Alloc(signal.Allocator{Channels: ch, Length: frames - 1, Capacity: frames - 1}))
@@ -319,6 +363,10 @@ func runC19(c *core.Ctx) {
 			b := t.Alloc(signal.Allocator{Channels: ch, Length: frames, Capacity: frames + 5})
 			c19Fill(b, t)
 			return b
+		}
+		mk := func() dyn.Buf { return warmUp(mk0()) }
+		if warm {
+			c.Obs("configurations_whose_shared_buffer_was_used_before_the_concurrent_phase", 1)
 		}
 		nOps := c.Pick(40, 120)
 		if large {
